@@ -1608,6 +1608,9 @@ func (v *Verifier) isLoopLocalFresh(before *State, e ast.Expr) bool {
 // isErrorReturn: the statement returns an error value that is not the literal nil
 // (an identifier such as err, or a call to fmt.Errorf / errors.New).
 func (v *Verifier) isErrorReturn(x *ast.ReturnStmt) bool {
+	if v.declaredDead(x) {
+		return true // exempt from the dead-return guard by a `deadreturn` clause
+	}
 	rs := v.curResults()
 	if len(rs) == 0 {
 		return true // early exit of a function without results
@@ -1627,6 +1630,51 @@ func (v *Verifier) isErrorReturn(x *ast.ReturnStmt) bool {
 			if id, ok := se.X.(*ast.Ident); ok && (id.Name == "fmt" && se.Sel.Name == "Errorf" || id.Name == "errors" && se.Sel.Name == "New") {
 				return true
 			}
+		}
+	}
+	return false
+}
+
+// declaredDead: the contract has `deadreturn "return text" [k]` naming this return statement
+// (the k-th one, default 1, whose source text starts with the given text): the contract
+// states that the statement is unreachable under its assumptions (e.g. a redundant second
+// pass), so its infeasibility is not taken as a sign of a vacuous proof.
+func (v *Verifier) declaredDead(x *ast.ReturnStmt) bool {
+	if v.fc == nil || v.body == nil {
+		return false
+	}
+	for _, c := range v.fc.Clauses {
+		if c.Kind != "deadreturn" {
+			continue
+		}
+		txt := strings.TrimSpace(c.Text)
+		occ := 1
+		if i := strings.LastIndex(txt, "\""); i > 0 && i < len(txt)-1 {
+			fmt.Sscanf(strings.TrimSpace(txt[i+1:]), "%d", &occ)
+			txt = txt[:i+1]
+		}
+		marker, err := strconv.Unquote(txt)
+		if err != nil {
+			continue
+		}
+		n := 0
+		found := false
+		ast.Inspect(v.body, func(nd ast.Node) bool {
+			r, ok := nd.(*ast.ReturnStmt)
+			if !ok || found {
+				return true
+			}
+			if strings.HasPrefix(v.stmtText(r), marker) {
+				n++
+				if n == occ && r == x {
+					found = true
+				}
+			}
+			return true
+		})
+		if found {
+			c.hit = true
+			return true
 		}
 	}
 	return false
